@@ -453,7 +453,9 @@ def through_traits(ctx, res):
                "the versioned restore path must assign the state with "
                "self.trait_set(**state)")
     # copy_traits assigns with setattr(self, name, value)
-    fn = repo.func(HT, "HasTraits.copy_traits")
+    from ..pyfacts import inline_helpers
+    fn = inline_helpers(mod, repo.cls(HT, "HasTraits"),
+                        repo.func(HT, "HasTraits.copy_traits"))
     sets = [c for c in ast.walk(fn) if isinstance(c, ast.Call)
             and norm(c.func) == "setattr"]
     res.instance("HasTraits.copy_traits", mod.loc(fn), assignments=len(sets))
@@ -500,6 +502,13 @@ def through_traits(ctx, res):
     # the deep path
     deep = [c for c in ast.walk(fn) if isinstance(c, ast.Call)
             and norm(c.func) == "copy_module.deepcopy"]
+    # ... including through private module-level helpers it calls
+    for c in ast.walk(fn):
+        if isinstance(c, ast.Call) and isinstance(c.func, ast.Name) \
+                and c.func.id.startswith("_") and c.func.id in mod.functions:
+            deep += [d for d in ast.walk(mod.functions[c.func.id])
+                     if isinstance(d, ast.Call)
+                     and norm(d.func) == "copy_module.deepcopy"]
     res.oblige(len(deep) >= 2, "copy_traits:deepcopy", mod.loc(fn),
                "copy_traits lost a deepcopy path")
     # __getstate__ drops transient traits; __reduce_ex__ uses __getstate__
@@ -512,40 +521,80 @@ def through_traits(ctx, res):
                "traits (transient=is_none)")
     # __setstate__ replays the state in dictionary order through trait_set:
     # locally overridden delegate values must come after the ordinary traits
-    # (the delegate object they are assigned through is one of those)
+    # (the delegate object they are assigned through is one of those).
+    # Forward taint over the statement list: what derives from the
+    # `type='delegate'` query, and where it is merged into the state.
+    def _is_delegate_query(n):
+        return isinstance(n, ast.Call) and any(
+            k.arg == "type" and norm(k.value) == "'delegate'"
+            for k in n.keywords)
+
     def _idx(pred):
         for i, st in enumerate(fn.body):
             if any(pred(n) for n in ast.walk(st)):
                 return i
         return None
-    i_get = _idx(lambda n: is_self_call(n, "trait_get"))
-    i_del = _idx(lambda n: isinstance(n, ast.Call) and any(
-        k.arg == "type" and norm(k.value) == "'delegate'"
-        for k in n.keywords))
-    if i_get is None or i_del is None:
+    i_get = _idx(lambda n: is_self_call(n, "trait_get")
+                 and not _is_delegate_query(n))
+    i_q = _idx(_is_delegate_query)
+    if i_get is None or i_q is None:
         raise AnalysisError("__getstate__: trait_get / delegate sources "
                             "not found")
     base = fn.body[i_get]
     rvar = base.targets[0].id if isinstance(base, ast.Assign) and isinstance(
         base.targets[0], ast.Name) else None
-    dst = fn.body[i_del]
-    merged = rvar is not None and any(
-        (isinstance(n, ast.Call) and norm(n.func) == f"{rvar}.update")
-        or (isinstance(n, ast.Subscript) and isinstance(n.ctx, ast.Store)
-            and norm(n.value) == rvar) for n in ast.walk(dst))
-    if i_get == i_del:
-        # one expression ({**a, **b} / dict(a, **b)): insertion order is
-        # source order
-        def _pos(pred):
-            return min((n.lineno, n.col_offset) for n in ast.walk(base)
-                       if pred(n))
-        merged = _pos(lambda n: is_self_call(n, "trait_get")) < _pos(
-            lambda n: isinstance(n, ast.Call) and any(
-                k.arg == "type" and norm(k.value) == "'delegate'"
-                for k in n.keywords))
-        i_get = i_del - 1 if merged else i_del
-    res.oblige(i_get < i_del and merged, "__getstate__:delegates-last",
-               mod.loc(dst),
+    if rvar is None and isinstance(base, ast.Expr) and isinstance(
+            base.value, ast.Call) and isinstance(base.value.func,
+                                                 ast.Attribute) \
+            and base.value.func.attr == "update" \
+            and isinstance(base.value.func.value, ast.Name):
+        rvar = base.value.func.value.id
+    dict_vars = {a.targets[0].id for a in ast.walk(fn)
+                 if isinstance(a, ast.Assign) and len(a.targets) == 1
+                 and isinstance(a.targets[0], ast.Name)
+                 and norm(a.value).endswith(".__dict__")}
+    tainted = set()
+    region = []          # statements that handle delegate-derived data
+    i_merge = None
+    single_expr = False
+    for i, st in enumerate(fn.body):
+        mentions = any(_is_delegate_query(n) for n in ast.walk(st)) or any(
+            isinstance(n, ast.Name) and n.id in tainted for n in ast.walk(st))
+        if not mentions:
+            continue
+        region.append(st)
+        for n in ast.walk(st):
+            if isinstance(n, ast.Assign):
+                for t in n.targets:
+                    for x in ast.walk(t):
+                        if isinstance(x, ast.Name) and x.id != rvar:
+                            tainted.add(x.id)
+            if isinstance(n, (ast.For, ast.comprehension)):
+                tainted |= {x for x in names_in(n.target)}
+        merged_here = rvar is not None and any(
+            (isinstance(n, ast.Call) and norm(n.func) == f"{rvar}.update")
+            or (isinstance(n, ast.Subscript) and isinstance(n.ctx, ast.Store)
+                and norm(n.value) == rvar) for n in ast.walk(st))
+        if st is base and any(_is_delegate_query(n) for n in ast.walk(st)):
+            # one expression ({**a, **b} / dict(a, **b)): insertion order is
+            # source order
+            def _pos(pred):
+                return min((n.lineno, n.col_offset) for n in ast.walk(base)
+                           if pred(n))
+            single_expr = True
+            if _pos(lambda n: is_self_call(n, "trait_get")
+                    and not _is_delegate_query(n)) < _pos(_is_delegate_query):
+                i_merge = i + 0.5
+            else:
+                i_merge = i - 0.5
+        elif (merged_here or (rvar is not None and isinstance(st, ast.Assign)
+                              and any(isinstance(t, ast.Name) and t.id == rvar
+                                      for t in st.targets))) \
+                and i_merge is None:
+            i_merge = i
+    dst = region[0] if region else fn.body[i_q]
+    res.oblige(i_merge is not None and i_merge > i_get,
+               "__getstate__:delegates-last", mod.loc(dst),
                "the state dictionary lists locally overridden delegate "
                "values before the ordinary traits: __setstate__ replays it in "
                "order, so a PrototypedFrom override is assigned before the "
@@ -555,24 +604,25 @@ def through_traits(ctx, res):
     # from the instance dictionary under a membership test, never through
     # the delegation (a value read through it would be written back by
     # __setstate__ as a local override and stop following its prototype)
-    dcalls = [n for n in ast.walk(dst) if isinstance(n, ast.Call) and any(
-        k.arg == "type" and norm(k.value) == "'delegate'"
-        for k in n.keywords)]
-    dict_vars = {a.targets[0].id for a in ast.walk(fn)
-                 if isinstance(a, ast.Assign) and len(a.targets) == 1
-                 and isinstance(a.targets[0], ast.Name)
-                 and norm(a.value).endswith(".__dict__")}
+    dcalls = [n for st in region for n in ast.walk(st)
+              if _is_delegate_query(n)]
     reads_dict = any(isinstance(n, ast.Subscript) and (
         norm(n.value).endswith(".__dict__") or norm(n.value) in dict_vars)
-        for n in ast.walk(dst))
+        for st in region for n in ast.walk(st))
     filtered = any(isinstance(n, ast.Compare) and len(n.ops) == 1
                    and isinstance(n.ops[0], ast.In) and (
                        norm(n.comparators[0]).endswith(".__dict__")
                        or norm(n.comparators[0]) in dict_vars)
-                   for n in ast.walk(dst))
+                   for st in region for n in ast.walk(st))
     names_only = all(isinstance(c.func, ast.Attribute)
                      and c.func.attr == "trait_names" for c in dcalls)
-    res.oblige(names_only and reads_dict and filtered,
+    through = any(isinstance(n, ast.Call) and (
+        norm(n.func) == "getattr" or (isinstance(n.func, ast.Attribute)
+                                      and n.func.attr == "trait_get"
+                                      and n is not None
+                                      and _is_delegate_query(n)))
+        for st in region for n in ast.walk(st))
+    res.oblige(names_only and reads_dict and filtered and not through,
                "__getstate__:delegates-local-only", mod.loc(dst),
                "delegate values must be taken from self.__dict__ for the "
                "names that are in it (local overrides); reading them with "
